@@ -507,50 +507,55 @@ def validateUnbound (rx : String → String → Bool) (op name : Nat) (p : Param
   | some d => validate rx p.ptype (cfgOf view) d.v
   | none => throw .unsupported
 
+/-- the constructor's last statement `self._validate(self.default)`: the Parameter, or the error -/
+def checked (rx : String → String → Bool) (op name : Nat) (p : Param) : Except ErrKind Param :=
+  match validateUnbound rx op name p with
+  | .ok _ => .ok p
+  | .error e => .error e
+
+/-- src: Tuple.__init__: `length` is `len(default)` for a non-empty default, else the argument -/
+def tupleLength (a : Slots) : Except ErrKind (Option Val) :=
+  match a .default with
+  | some dv =>
+    if dv.v.truthy then
+      match dv.v.len with
+      | some n => .ok (some (atomV (.int n)))
+      | none => .error .typeError
+    else .ok (a .length)
+  | none => .ok (a .length)
+
+/-- src: Tuple.__init__: `length is Undefined and self.default is None` -/
+def tupleNoLength (a : Slots) : Bool :=
+  let defaultView := match a .default with | some v => some v | none => staticDefaultV .tuple .default
+  (a .length).isNone && (match defaultView with | some v => v.v.isNone | none => false)
+
 /-- src: `<Type>.__init__` — the unbound Parameter a declaration creates, or the
 error its constructor raises (before any class exists). -/
 def construct (rx : String → String → Bool) (op name : Nat) (d : Decl) : Except ErrKind Param :=
   let a := d.args
   match d.ptype with
   | .parameter => .ok (baseInit .parameter (a .default) a d.instantiate)
-  | .number | .integer => do
+  | .number | .integer =>
     let b := baseInit d.ptype (a .default) a d.instantiate
-    let p := { b with slots := (((b.slots.set .bounds (a .bounds)).set .inclusiveBounds (a .inclusiveBounds)).set
+    checked rx op name { b with slots := (((b.slots.set .bounds (a .bounds)).set .inclusiveBounds (a .inclusiveBounds)).set
                  .softbounds (a .softbounds)).set .step (a .step) }
-    validateUnbound rx op name p
-    return p
-  | .string => do
+  | .string =>
     let b := baseInit .string (a .default) a d.instantiate
-    let p := { b with slots := b.slots.set .regex (a .regex) }
-    validateUnbound rx op name p
-    return p
-  | .tuple => do
+    checked rx op name { b with slots := b.slots.set .regex (a .regex) }
+  | .tuple =>
     let b := baseInit .tuple (a .default) a d.instantiate
-    let defaultView := match a .default with | some v => some v | none => staticDefaultV .tuple .default
-    let dNone := match defaultView with | some v => v.v.isNone | none => false
-    if (a .length).isNone && dNone then throw .valueError
-    let length ←
-      match a .default with
-      | some dv =>
-        if dv.v.truthy then
-          match dv.v.len with
-          | some n => pure (some (atomV (.int n)))
-          | none => throw .typeError
-        else pure (a .length)
-      | none => pure (a .length)
-    let p := { b with slots := b.slots.set .length length }
-    validateUnbound rx op name p
-    return p
-  | .list => do
+    if tupleNoLength a then .error .valueError else
+    match tupleLength a with
+    | .error e => .error e
+    | .ok length => checked rx op name { b with slots := b.slots.set .length length }
+  | .list =>
     -- item_type=None is the same as leaving it out (class_ is never given)
     let itemType := match a .itemType with
       | some v => if v.v.isNone then none else some v
       | none => none
     let itemClass := match itemType with | some v => some v | none => some noneV
     let b := baseInit .list (a .default) a d.instantiate
-    let p := { b with slots := ((b.slots.set .bounds (a .bounds)).set .itemType itemType).set .itemClass itemClass }
-    validateUnbound rx op name p
-    return p
+    checked rx op name { b with slots := ((b.slots.set .bounds (a .bounds)).set .itemType itemType).set .itemClass itemClass }
   | .selector => do
     -- autodefault: the first object
     let autodefault ← match a .objects with
@@ -661,10 +666,16 @@ def prepare (T : PType) (op name : Nat) (found : Slots) : Except (Outcome × Slo
     | .error _ => .error (.unsupported, f3)
     | .ok f4 => .ok f4
 
+/-- `not self.check_on_set` on a bound Selector -/
+def cosFalsy (f : Slots) : Bool :=
+  match f .checkOnSet with
+  | some c => !c.v.truthy
+  | none => false
+
 /-- `param._validate(param.default)` inside the try/except of `__param_inheritance` -/
 def revalidate (rx : String → String → Bool) (T : PType) (f4 : Slots) (d : PyV) : Slots × Outcome :=
   -- Selector._validate with check_on_set falsy appends instead of checking
-  if T == .selector && !(match f4 .checkOnSet with | some c => c.v.truthy | none => true) then
+  if T == .selector && cosFalsy f4 then
     match ensureInObjects f4 d with
     | .ok f5 => (f5, .ok)
     | .error _ => (f4, .unsupported)
